@@ -32,6 +32,8 @@ func c26(r *core.Report, p *core.Prog, thorough bool) {
 	r.Rule("C26.terminates", "no stuttering iteration (pure path around a loop that leaves every loop-carried value unchanged) in sharder/blockdb, sharder/blockstore")
 	r.Rule("C26.write-path", "BlockStore.writeToDisk: os.Create → WriteMsgpack → compressor Close → buffer Flush on every success exit, in order, each error failing the write")
 	r.Rule("C26.errors", "no dropped error of Write/Flush/Sync/Close/Encode/Seek/… in the write functions of blockdb and blockstore")
+	r.Rule("C26.full-read", "a function of the block database that fills a buffer with ONE Read on an io.Reader parameter is only ever handed a raw *os.File (or an in-memory bytes reader), whose Read fills the buffer unless the file ends; a buffered or decompressing reader may return less and the index would be rejected or truncated")
+	c26FullRead(r, p)
 	r.Rule("C26.pipeline", "writeToDisk composes msgpack∘zlib over the file; readFromDisk composes zlib∘msgpack over the same path function")
 	var fns []*ssa.Function
 	for _, pk := range []string{pkgBlockDB, pkgBlockStore} {
@@ -146,4 +148,97 @@ func c26(r *core.Report, p *core.Prog, thorough bool) {
 		}
 	}
 	r.Floor("C26.errors", "io calls on write paths", nIO, 12)
+}
+
+// c26FullRead: single-Read decoders get raw files only.
+func c26FullRead(r *core.Report, p *core.Prog) {
+	fns := p.FuncsIn(pkgBlockDB)
+	// functions with a direct Read on an io.Reader-typed parameter
+	type site struct {
+		fn  *ssa.Function
+		prm int
+	}
+	var raw []site
+	for _, fn := range fns {
+		if fn.Blocks == nil {
+			continue
+		}
+		for _, b := range fn.Blocks {
+			for _, in := range b.Instrs {
+				c, ok := in.(*ssa.Call)
+				if !ok || !c.Common().IsInvoke() || c.Common().Method.Name() != "Read" {
+					continue
+				}
+				for i, prm := range fn.Params {
+					if c.Common().Value == ssa.Value(prm) {
+						raw = append(raw, site{fn, i})
+					}
+				}
+			}
+		}
+	}
+	okType := func(t string) bool {
+		return t == "*os.File" || t == "*bytes.Buffer" || t == "*bytes.Reader" || t == "*strings.Reader"
+	}
+	n := 0
+	seen := map[site]bool{}
+	var check func(s site, depth int)
+	check = func(s site, depth int) {
+		if seen[s] || depth > 4 {
+			return
+		}
+		seen[s] = true
+		for _, caller := range p.ModFuncs() {
+			if caller.Blocks == nil {
+				continue
+			}
+			// the decoders are unexported machinery of the block database: callers live there
+			if caller.Pkg == nil || caller.Pkg.Pkg.Path() != pkgBlockDB {
+				continue
+			}
+			for _, b := range caller.Blocks {
+				for _, in := range b.Instrs {
+					c, ok := in.(*ssa.Call)
+					if !ok {
+						continue
+					}
+					var arg ssa.Value
+					if c.Common().StaticCallee() == s.fn && s.prm < len(c.Call.Args) {
+						arg = c.Call.Args[s.prm]
+					} else if c.Common().IsInvoke() && s.fn.Signature.Recv() != nil && c.Common().Method.Name() == s.fn.Name() && s.prm >= 1 && s.prm-1 < len(c.Call.Args) {
+						// interface dispatch to a decoder with this name (Index.Decode)
+						arg = c.Call.Args[s.prm-1]
+					}
+					if arg == nil {
+						continue
+					}
+					n++
+					key := fmt.Sprintf("%s->%s", core.EnclosingNamed(caller).Name(), s.fn.Name())
+					switch x := arg.(type) {
+					case *ssa.MakeInterface:
+						t := x.X.Type().String()
+						r.Check(okType(t), "C26.full-read", key, p.Pos(c.Pos()), "the reader handed to a single-Read decoder is "+t)
+					case *ssa.Parameter:
+						// passed through: follow the caller's callers
+						for i, prm := range caller.Params {
+							if prm == x {
+								check(site{caller, i}, depth+1)
+							}
+						}
+						r.Pass("C26.full-read", key+":passes-through", p.Pos(c.Pos()), "forwards its own reader parameter")
+					default:
+						if okType(arg.Type().String()) {
+							r.Pass("C26.full-read", key, p.Pos(c.Pos()), "concrete "+arg.Type().String())
+						} else {
+							r.Fail("C26.full-read", key, p.Pos(c.Pos()), "cannot tell what reader reaches the single-Read decoder: "+describe(arg))
+						}
+					}
+				}
+			}
+		}
+	}
+	for _, s := range raw {
+		check(s, 0)
+	}
+	r.Floor("C26.full-read", "call sites feeding single-Read decoders", n, 1)
 }
